@@ -3,7 +3,7 @@
 (* deduplicate_disjunctions, requests_aggregation, compute_path_dsjctn, find_reversed_path) are JUDGED here.  *)
 (*                                                                                                            *)
 (* One trace = one network:  [name, n, links = <<<<a, b, len>>, ...>> (directed arcs as the GENERATOR of the   *)
-(* topology knows them, not as gnpy's OMS/isdisjoint see them), opt, tol, ev].  One event = one batch handed   *)
+(* topology knows them, not as gnpy's OMS/isdisjoint see them), opt, tol (length units), ev].  One event = one batch handed   *)
 (* to the pipeline, with what came back for every request: a blocking reason, or the element list projected   *)
 (* to                                                                                                         *)
 (*    src, dst   site of the transceiver the list starts / ends with (0 if it is no transceiver)              *)
@@ -35,7 +35,7 @@ Abstract(e) == [err |-> e.err,
 
 \* ---- clauses about the concrete element list (what "a real path of the designed network" means)
 EndsAtTransceivers(s, d, ob) == ob.src = s /\ ob.dst = d
-ElementsFollowEdges(G, ob) ==
+ElementsFollowEdges(G, ob, tol) ==
   /\ ob.contig = 1
   /\ Len(ob.hops) = Len(ob.sites) - 1
   /\ \A k \in 1..Len(ob.hops) :
@@ -43,17 +43,17 @@ ElementsFollowEdges(G, ob) ==
        IN  /\ h.a = ob.sites[k] /\ h.b = ob.sites[k + 1]
            /\ h.fib # <<>>
            /\ \A j \in 1..Len(h.fib) : h.fib[j] = LineEl(h.a, h.b)           \* only fibres of that very link
-           /\ <<h.a, h.b>> \in G.arcs => h.len = G.len[<<h.a, h.b>>]         \* all of them
+           /\ <<h.a, h.b>> \in G.arcs => Within(h.len, G.len[<<h.a, h.b>>], tol)   \* all of them
 NoElementTwice(ob) == ob.nel = ob.nuniq
 
-ConcreteViol(G, e, k) ==
+ConcreteViol(G, e, k, tol) ==
   LET r == e.reqs[k]
       x == e.res[k]
   IN  IF x.st # "path" THEN {}
       ELSE (IF EndsAtTransceivers(r.s, r.d, x.p) THEN {} ELSE {"EndsAtTransceivers"})
-           \cup (IF ElementsFollowEdges(G, x.p) THEN {} ELSE {"ElementsFollowEdges"})
+           \cup (IF ElementsFollowEdges(G, x.p, tol) THEN {} ELSE {"ElementsFollowEdges"})
            \cup (IF NoElementTwice(x.p) THEN {} ELSE {"NoElementTwice"})
-           \cup (IF EndsAtTransceivers(r.d, r.s, x.rev) /\ ElementsFollowEdges(G, x.rev) /\ NoElementTwice(x.rev)
+           \cup (IF EndsAtTransceivers(r.d, r.s, x.rev) /\ ElementsFollowEdges(G, x.rev, tol) /\ NoElementTwice(x.rev)
                  THEN {} ELSE {"ReverseIsReal"})
 
 EventViol(tr, e) ==
@@ -61,7 +61,7 @@ EventViol(tr, e) ==
       b == [reqs |-> e.reqs, groups |-> e.groups]
       o == Abstract(e)
   IN  (IF tr.opt = 1 THEN Judge(G, b, FactsOf(G, b), o, tr.tol) ELSE JudgeStructural(G, b, o))
-      \cup (IF e.err = 1 THEN {} ELSE UNION {{<<k, c>> : c \in ConcreteViol(G, e, k)} : k \in 1..Len(e.reqs)})
+      \cup (IF e.err = 1 THEN {} ELSE UNION {{<<k, c>> : c \in ConcreteViol(G, e, k, tr.tol)} : k \in 1..Len(e.reqs)})
 
 Init == /\ tid \in 1..Len(T)
         /\ i = 0
